@@ -425,3 +425,20 @@ from vt.contract import canary as _canary  # noqa: E402
 
 _canary(OrSelMatch, "atom", "rest_den")
 _canary(TupleSelMatch, "atom", "rest_den")
+
+
+
+def mk_selection(case, name="S"):
+    """the selection of a regenerate / filter contract: abstract (arbitrary denotation) unless the case names a
+    CONCRETE selection class — code that special-cases `isinstance(s.s, NoneSel)` / AllSel / a complement must meet the
+    same postcondition on those paths"""
+    if "sel=none" in case:
+        return core.Selection(core.NoneSel())
+    if "sel=all" in case:
+        return core.Selection(core.AllSel())
+    if "sel=compl_all" in case:
+        return core.Selection(core.ComplSel(core.AllSel()))
+    return core.Selection(AbsSel.fresh(name))
+
+
+CONCRETE_SEL = ("sel=none", "sel=all", "sel=compl_all")
